@@ -279,6 +279,29 @@ class CompGen(ShapeGen):
         self.shapes.append((s, is_prop))
         return s
 
+    def waivable_parent(self, depth=2):
+        """a top-level shape of waivable severity whose constraint consults / forwards a child of stricter severity"""
+        rng, g = self.rng, self.g
+        s = self.new_node(True)
+        g.add((s, RDF.type, SH.NodeShape))
+        g.add((s, SH.severity, rng.choice([SH.Warning, SH.Info])))
+        self.targets(s, force=["node", rng.choice(["class", "subjectsOf"])])
+        op = rng.choice(["node", "property", "not", "and", "or", "xone", "node", "property"])
+        if op in ("node", "property"):
+            child = self.composite(depth - 1, want_prop=(op == "property"))
+            g.add((s, SH[op], child))
+        elif op == "not":
+            child = self.composite(depth - 1)
+            g.add((s, SH["not"], child))
+        else:
+            child = self.composite(depth - 1)
+            g.add((s, SH[op], self.lst([child, self.composite(depth - 1)])))
+        g.remove((child, SH.severity, None)); g.remove((child, SH.deactivated, None))
+        if rng.random() < 0.5:
+            g.add((child, SH.severity, rng.choice([SH.Violation, EX.CustomSeverity, SH.Warning])))
+        self.shapes.append((s, False))
+        return s
+
     def top(self, depth):
         s = self.composite(depth, named=True)
         self.targets(s, force=self.rng.sample(["node", "class", "subjectsOf", "objectsOf"], self.rng.randint(1, 2)))
